@@ -31,6 +31,9 @@ CLAIMED = {
  "C17": ("deterministic simulation: concurrent writers x the pacer's timer goroutine under the simrt scheduler on the fake clock, mid-stream SetRate, slow next writer, callers scribbling after return; exactly-once/FIFO/intact history oracle + token-bucket envelope + bounded liveness",
          "Seeded exploration of pacing.Interceptor, gcc.LeakyBucketPacer and gcc.NoOpPacer: 1-3 streams, 1-4 writer goroutines (also two on one stream), all header shapes and payloads 0..1460, callers overwriting header/CSRC/extension/payload bytes right after Write returns, rate changes mid-stream, next writer that yields or stalls before reading what it was handed. Oracles over the recorded history: every accepted packet delivered exactly once to its own stream's writer with the header and payload it had when accepted; delivery order is a linearisation of the per-stream FIFO (real-time order, single consumer); for the token-bucket interceptor cumulative released bits <= largest burst in force + integral of the rate; after the writers stop everything accepted is delivered within queued-bits/rate plus a few intervals.",
          "Trusted: the history oracle; the burst allowance is taken as the documented bucket size max(1500 bytes, rate x interval). One open known finding (packet not smaller than the burst blocks the queue). porcupine is not needed: with a single consumer the real-time-order check is exact. Sampling, not proof.", "DESIGN.md §5 C17"),
+ "C14": ("deterministic simulation: FEC interceptor with 1-3 concurrent streams sharing the encoder's scratch pool under the simrt scheduler, callers reusing buffers, single-loss dropping link + independent FlexFEC-03 decoder; direct EncodeFec batch histories with changing (k, n)",
+         "Seeded exploration of flexfec.FecInterceptor (concurrent writer goroutines, yielding next writer, callers overwriting header/CSRC/extension/payload bytes after Write) and of FlexEncoder03.EncodeFec over successive batches with changing media/FEC counts through one encoder: batches of 1..110 packets, 0..110 FEC packets, base sequence numbers incl. the wrap, all header shapes (CSRC, one-/two-byte extensions, three padding forms, marker, PT), payloads 0..1500. An independent decoder written from the FlexFEC-03 draft parses every repair packet; for each repair packet and each choice of one missing covered packet (all choices for groups <= 16) XOR recovery must reproduce the original packet byte for byte (serialised by the harness, not by rtp.Packet.Marshal); every media packet is covered; the mask names only packets of the batch; repair packets carry the FEC SSRC/PT with consecutive sequence numbers; media passes first and unmodified.",
+         "Trusted: the independent decoder/recovery procedure and the harness serialisation of the originals. One open known finding (110-packet batches exceed the 109-bit mask). Most of the reach comes from header-shape and batch-history generation; the schedule dimension matters for the shared scratch pool and caller reuse only. Sampling, not proof.", "DESIGN.md §5 C14"),
 }
 NA = {
  "C20": "pure single-threaded functions of their inputs (sequence unwrapping, NTP conversion): no schedule, clock, fault, I/O or second party for a simulator to control; deciding them is input enumeration/property-based testing, a different technique (they run as real code inside the C05/C07/C08/C09/C19 scenarios).",
